@@ -6,7 +6,7 @@ CONSTANTS
   Dedup = TRUE
   Recheck = TRUE
   UseTree = TRUE
-  TreeAtomic = TRUE
-  ReaderFallback = FALSE
-INVARIANTS NoLoss
+  TreeAtomic = FALSE
+  ReaderFallback = TRUE
+INVARIANTS NoPartialTree
 CHECK_DEADLOCK FALSE
